@@ -9,15 +9,15 @@ VERIF = os.path.dirname(os.path.dirname(os.path.abspath(__file__)))
 CLAIMS = {
     "C01": ("Coq proof by nested induction on (value, type) over a hand-written model of the generated (un)packers, composed from C02/C03 theorems; timezone codec proved over the kernel translated from source (finite sweep lifted by forallb_forall); model/implementation correspondence by vm_compute; round-trip oracle on the implementation",
             "Theorems C01_roundtrip / C01_roundtrip_codec / C01_roundtrip_total: for every class table, lossless type (any depth, recursive dataclasses, NamedTuples (as_list form, with defaults), TypedDicts (total / Required / NotRequired keys), collections incl. Sequence / Mapping / Deque / OrderedDict / DefaultDict / MappingProxyType / Counter / ChainMap, mappings keyed by scalars, leaves, enums or bytes (under vals_ok: the wire forms of the keys present pairwise distinct), fixed / variadic tuples and tuples with an unpacked segment, Optional, Literal of int/str/bool/None constants, leaves, enums, bytes, Any) and conforming value, decoding the generated packer's output returns the value with the same concrete classes; the side condition conf_ord = conformance + TypedDict keys in the decoder's order (C01_conf_ord_is_conf; == on dicts ignores the order, = on terms does not); C01_timezone about parse_timezone as translated from /repo on every run. All closed under the global context.",
-            "Trusted: Coq kernel + vm_compute (+ coqchk in the thorough tier); TyModel.v is hand-written and tied to /repo only by the per-run vm_compute correspondence (BasicEncoder/BasicDecoder on generated schemas, values and foreign inputs) except for the index/slice plan of unpacked tuples, which is proved equal to the arg_indexes loop translated from /repo (kernel K7, TyK7.v); stdlib render/parse pairs are oracle functions whose law is a hypothesis (atoms_ok); tools/py2gallina.py for K1/K7; unions (C11), enum-member / bytes literals, namedtuple_as_dict, generic NamedTuples/TypedDicts, Config options (aliases, sort_keys) and the defaultdict factory are decided by the implementation oracle only.",
+            "Trusted: Coq kernel + vm_compute (+ coqchk in the thorough tier); TyModel.v is hand-written and tied to /repo only by the per-run vm_compute correspondence (BasicEncoder/BasicDecoder on generated schemas, values and foreign inputs) except for the index/slice plan of unpacked tuples, which is proved equal to the arg_indexes loop translated from /repo (kernel K7, TyK7.v); stdlib render/parse pairs are oracle functions whose law is a hypothesis (atoms_ok); tools/py2gallina.py for K1/K7; unions (C11), enum-member / bytes literals, namedtuple_as_dict (dialect / Config option: dedicated round-trip scenario), generic NamedTuples/TypedDicts, Config options (aliases, sort_keys) and the defaultdict factory are decided by the implementation oracle only.",
             "4 C01"),
     "C02": ("Coq proof by nested induction (pk (cp t) = ref_enc t on conforming values) over the hand-written generator model; vm_compute correspondence with BasicEncoder; independent reference-interpreter oracle incl. format dialects",
             "Theorems C02_pack_ref / C02_field_packer / C02_basic: the generated packer with all its optimisations (copy vs comprehension, elided None tests, identity packers, index/slice plan of unpacked tuples) equals the README-level reference encoder for every conforming value of every type of the grammar (incl. NamedTuple as_list, TypedDict required-then-optional keys, tuples with an unpacked segment, Sequence / Mapping / Deque / OrderedDict / DefaultDict / MappingProxyType / Counter / ChainMap), at any depth, and emits only basic values. Closed under the global context.",
-            "Trusted: Coq kernel (+ coqchk in the thorough tier); TyModel.v (model of pack.py decisions) tied by per-run vm_compute correspondence, the unpacked-tuple plan by kernel K7; stdlib renderings are oracle tables; format dialects (orjson/msgpack/TOML native types, TOML null dropping), unions, enum-member / bytes literals, namedtuple_as_dict and generic NamedTuples/TypedDicts are decided by the independent Python reference interpreter only.",
+            "Trusted: Coq kernel (+ coqchk in the thorough tier); TyModel.v (model of pack.py decisions) tied by per-run vm_compute correspondence, the unpacked-tuple plan by kernel K7; stdlib renderings are oracle tables; format dialects (orjson/msgpack/TOML native types, TOML null dropping), unions, enum-member / bytes literals, namedtuple_as_dict (dialect / Config option: dict of all items in field order) and generic NamedTuples/TypedDicts are decided by the independent Python reference interpreter only.",
             "4 C02"),
     "C03": ("Coq proof by nested induction (uk (cu t) = the as-generated reading of the reference on EVERY input; documented reference = as-generated reading or 'too few items') over the hand-written generator model; index/slice plan of unpacked tuples proved equal to the arg_indexes loop translated from /repo (K7); vm_compute correspondence with BasicDecoder on encoder output and foreign inputs; independent reference-decoder + exact-class oracle",
             "Proof (partial): C03_unpack_ref (generated unpacker = ref_dec_l on every input, every class table, every type of the grammar: str iterating characters, dict iterating keys, surplus tuple items and unknown keys ignored, recursive constant positions, NamedTuple positions with trailing defaults, TypedDict required/optional keys, unpacked tuples through the K7 plan, collection unpackers rebuilding the canonical concrete classes: list / dict / deque / OrderedDict / defaultdict / MappingProxyType / Counter / ChainMap, Literal constants matched by exact class), C03_strict_or_same and C03_unpack_ref_partial (= the documented reference ref_dec unless that one says 'too few items'), C03_well_typed(_ord) (results conform to the annotation), C03_str_fuel_sufficient (acyclic class table: no RecursionError), C03_model_plan_is_code, C03_tuple_indexes; the unguarded statement C03_unpack_ref_full is refuted (C03_unpack_ref_refuted, C03_unpack_short_input_refuted: known finding unpacked-tuple-short-input). Closed under the global context.",
-            "Trusted: Coq kernel (+ coqchk in the thorough tier); TyModel.v (model of unpack.py decisions) tied by per-run vm_compute correspondence (incl. inputs with one nested sequence cut short and every prefix of unpacked-tuple inputs); tools/kernels/k7_tuple_indexes.py; stdlib constructors are oracle tables; sequence-like inputs other than list/tuple/str (bytes, dicts with integer keys, NamedTuple instances), unions, enum-member / bytes literals, namedtuple_as_dict and generic NamedTuples/TypedDicts are decided by the implementation oracle only.",
+            "Trusted: Coq kernel (+ coqchk in the thorough tier); TyModel.v (model of unpack.py decisions) tied by per-run vm_compute correspondence (incl. inputs with one nested sequence cut short and every prefix of unpacked-tuple inputs); tools/kernels/k7_tuple_indexes.py; stdlib constructors are oracle tables; sequence-like inputs other than list/tuple/str (bytes, dicts with integer keys, NamedTuple instances), unions, enum-member / bytes literals, namedtuple_as_dict (dialect / Config option; reference = lookup by field name, a missing key legal exactly for a defaulted field; every key removed / surplus key / nested list cut short) and generic NamedTuples/TypedDicts are decided by the implementation oracle only.",
             "4 C03"),
     "C05": ("Coq proof (outcome-set, first-bad-field, exact-extra-keys, no-silent-default theorems over all field lists, inputs and decoder behaviours) over a hand-written field-loop model; vm_compute correspondence; AST shape check of every generated from_dict; direct oracle with corruption stream",
             "Proof (partial): C05_outcomes_partial, C05_first_bad, C05_extra_exact_partial, C05_no_silent_default_partial, C05_union_outcomes, C05_discr_partial (17 theorems, closed under the global context) for classes with >=1 init field, unions without a None member, discriminators on mapping inputs with hashable tags; the leak sites are _refuted theorems and known findings. Input immutability is checked by the oracle, not proved.",
